@@ -26,4 +26,4 @@ ASSUMPTIONS = ["the `regex` crate implements the syntax as documented; leftmost-
 
 def run(ctx):
     # a long-bracket string directly after `[` is re-lexed as a different literal: the bracket guard is a C04 clause too
-    return [r_regex.rule_regex(ctx, "C04"), r_opt.rule_quote(ctx, "C04"), r_tree.rule_bracket(ctx, "C04"), r_cli.rule_exact_read(ctx, "C04"), p_c07.rule_print(ctx, "C04")]
+    return [r_regex.rule_regex(ctx, "C04"), r_opt.rule_quote(ctx, "C04"), r_tree.rule_bracket(ctx, "C04"), r_cli.rule_exact_read(ctx, "C04"), p_c07.rule_print(ctx, "C04"), p_c07.rule_parse_input(ctx, "C04")]
